@@ -52,7 +52,7 @@ SPEC = {
     "C18": ["samply/src/server.rs::generate_token,symbolication_service,start_server"],
     "C19": ["fxprof-processed-profile/src/library_info.rs", "samply/src/profile_json_preparse.rs", "wholesym/src/helper.rs::add_known_lib,fill_in_library_info_details",
             "samply-symbols/src/shared.rs::from_str,fmt", "samply/src/linux_shared/converter.rs::add_module_to_process,library_info_with_object", "samply/src/shared/utils.rs::open_file_with_fallback",
-            "samply-symbols/src/debugid_util.rs"],
+            "samply-symbols/src/debugid_util.rs", "samply/src/shared/save_profile.rs"],
     "C20": ["samply-api/src/asm/mod.rs", "samply-symbols/src/binary_image.rs::read_bytes_at_relative_address"],
 }
 
